@@ -152,10 +152,9 @@ fn compute_block_facts<'ast, 'arena>(
             for &local in &op.reads {
                 note_use(&mut uses, &defs, local, local_start);
             }
-            for &local in &op.writes {
-                note_def(&mut defs, local, local_start);
-            }
 
+            // A callee runs before the statement stores its own result, so its capture reads
+            // come first. Its capture writes may be conditional: they never count as a definition.
             for &callee in &op.direct_callees {
                 let summary = &summaries[callee.0 as usize];
                 if !summary.available {
@@ -167,11 +166,10 @@ fn compute_block_facts<'ast, 'arena>(
                         note_use(&mut uses, &defs, local, local_start);
                     }
                 }
-                for &local in &summary.transitive_capture_writes {
-                    if facts.locals[local.0 as usize].owner == function {
-                        note_def(&mut defs, local, local_start);
-                    }
-                }
+            }
+
+            for &local in &op.writes {
+                note_def(&mut defs, local, local_start);
             }
         }
 
@@ -192,13 +190,6 @@ fn apply_op_transfer(
 ) {
     for &local in &op.writes {
         clear_local(live, local, local_start);
-    }
-    for &callee in &op.direct_callees {
-        for &local in &summaries[callee.0 as usize].transitive_capture_writes {
-            if facts.locals[local.0 as usize].owner == function {
-                clear_local(live, local, local_start);
-            }
-        }
     }
 
     for &local in &op.reads {
